@@ -113,34 +113,37 @@ class Run:
         self.hoststats = {}
         self.outs = []            # (step, who, stream, bytes)
         for l in lines:
-            f = l.split(" ")
-            if len(f) < 2:
-                continue
-            st, k = int(f[0]), f[1]
-            if k == "RUN":
-                self.choices.append(int(f[2]))
-            elif k == "TICK":
-                self.choices.append(-1)
-            elif k == "SPURIOUS":
-                self.choices.append(-2 - int(f[2]))
-            elif k == "SIGARRIVE":
-                self.choices.append(-1000 - int(f[4]) if len(f) > 4 else "sig")
-            if k == "DEADLOCK":
-                self.deadlock = True
-            elif k == "STEPLIMIT":
-                self.steplimit = True
-            elif k == "PB-OOB":
-                self.pb_oob = True
-            elif k == "EXIT":
-                self.exit = int(f[3])
-                self.exit_by = f[2]
-                self.peak = int(f[7])
-                self.exit_step = st
-            elif k == "HOST":
-                self.hoststats[f[2]] = (int(f[4]), int(f[6]), int(f[8]))
-            elif k == "FPUTS":
-                self.outs.append((st, f[2], f[3], vlib.unhex(f[4])))
-            self.events.append((st, k, f[2:]))
+            try:
+                f = l.split(" ")
+                if len(f) < 2:
+                    continue
+                st, k = int(f[0]), f[1]
+                if k == "RUN":
+                    self.choices.append(int(f[2]))
+                elif k == "TICK":
+                    self.choices.append(-1)
+                elif k == "SPURIOUS":
+                    self.choices.append(-2 - int(f[2]))
+                elif k == "SIGARRIVE":
+                    self.choices.append(-1000 - int(f[4]) if len(f) > 4 else "sig")
+                if k == "DEADLOCK":
+                    self.deadlock = True
+                elif k == "STEPLIMIT":
+                    self.steplimit = True
+                elif k == "PB-OOB":
+                    self.pb_oob = True
+                elif k == "EXIT":
+                    self.exit = int(f[3])
+                    self.exit_by = f[2]
+                    self.peak = int(f[7])
+                    self.exit_step = st
+                elif k == "HOST":
+                    self.hoststats[f[2]] = (int(f[4]), int(f[6]), int(f[8]))
+                elif k == "FPUTS":
+                    self.outs.append((st, f[2], f[3], vlib.unhex(f[4])))
+                self.events.append((st, k, f[2:]))
+            except (IndexError, ValueError):
+                continue        # a line cut short (the process was killed while writing it)
 
     def model_events(self):
         """map the trace to the events of Dsh/Dispatch.v"""
